@@ -8,6 +8,16 @@ HUB_NOTE = ("trusted: Coq kernel + vm_compute; the granularity of Model/Hub.v (c
             "in its header); bbolt by contract; Go drivers. The tie to the code is sequential handler-level histories (agreement with the model and with the "
             "abstract sequential spec); interleavings are covered by the theorems, and by steered schedules where a stage says so.")
 META = {
+    "C03": {
+        "text": "Coq theorems over the validation pipeline (validateJWT + key function + ParseWithClaims' order of checks) with base64 / JSON / signature verification as "
+                "parameters: a grant implies three decodable segments, a header naming exactly the configured algorithm, a signature verifying under the configured key with "
+                "that algorithm, exp > now >= nbf; any other algorithm name is refused whatever the signature; a presented but invalid token is 401 on all three endpoint "
+                "kinds with anonymous mode on or off. Partial by nature: decision logic only - cryptographic strength is outside. Tied to the code by a mutation corpus over "
+                "all accepted families judged by an independent verifier.",
+        "design_ref": "DESIGN.md §5 C03",
+        "note": "trusted: Coq kernel + vm_compute; Go crypto/*, base64, JSON (oracles via the independent verifier); golang-jwt's internals; Go drivers",
+        "technique": "Coq proof (decision pipeline case analysis) + differential correspondence against an independent verifier evaluated in Coq",
+    },
     "C18": {
         "text": "Coq theorems: (hub LTS, every schedule) while open the transport lists each subscriber at most once and exactly those between indexing and removal - at "
                 "quiescence the open streams; (API model) per-topic collection = filtered collection, a pair is found iff listed, every listed id routes back through "
